@@ -757,11 +757,23 @@ func (g *Gen) whereOn(src *Q, cols []string) *Q {
 // fixOn: a where that fixes column c to one or two constants (feeds the Fixed machinery:
 // copying of fixed values across joins / intersect / minus, disjoint unions, conflicts)
 func (g *Gen) fixOn(src *Q, c string) *Q {
+	// values that occur in the data when the source is a table (non-empty results)
+	val := func() Val {
+		if src.Op == "table" && g.rnd.Intn(4) > 0 {
+			t := g.sc.table(src.Name)
+			for i, tc := range t.Cols {
+				if tc == c && len(t.Rows) > 0 {
+					return t.Rows[g.rnd.Intn(len(t.Rows))][i]
+				}
+			}
+		}
+		return g.constFor(src.kinds[c])
+	}
 	var e *Ex
 	if g.rnd.Intn(3) == 0 {
-		e = &Ex{K: "in", A: &Ex{K: "col", C: c}, Vs: []Val{g.constFor(src.kinds[c]), g.constFor(src.kinds[c])}}
+		e = &Ex{K: "in", A: &Ex{K: "col", C: c}, Vs: []Val{val(), val()}}
 	} else {
-		e = &Ex{K: "cmp", O: "is", A: &Ex{K: "col", C: c}, B: &Ex{K: "const", V: g.constFor(src.kinds[c])}}
+		e = &Ex{K: "cmp", O: "is", A: &Ex{K: "col", C: c}, B: &Ex{K: "const", V: val()}}
 	}
 	return &Q{Op: "where", Src: src, E: e, cols: src.cols, kinds: src.kinds}
 }
